@@ -25,24 +25,38 @@ RULE = ("events = randomize(layout A|B), init_from_channel_matrix(M1|M2 x layout
         " reference model evaluated on every view in every state. Non-trivial = state whose history holds >= 2"
         " mutators; distinct = distinct canonical keys")
 
-LAYOUTS = {"A": ([1, 2], [2, 1]), "B": ([2, 1], [1, 2]), "C": ([2, 2], [2, 2])}
-K = 2
+LAYOUTS2 = {"A": ([1, 2], [2, 1]), "B": ([2, 1], [1, 2])}
+LAYOUTS3 = {"A": ([1, 2, 1], [2, 1, 1]), "B": ([2, 1, 1], [1, 1, 2])}
+LAYOUTS = LAYOUTS2
+K = 2          # set per exploration job (set_K); forked workers run jobs sequentially
+
+
+def set_K(k):
+    global K, LAYOUTS
+    K = k
+    LAYOUTS = LAYOUTS2 if k == 2 else LAYOUTS3
 TOL_C = 1e3
 
 
 def P_of(name):
     if name is None:
         return None
-    base = {"P1": [[1.0, 0.25], [0.04, 0.81]], "P2": [[0.5, 1.0], [0.09, 0.0625]]}[name]
-    return np.array(base)
+    base = {"P1": [[1.0, 0.25, 0.49], [0.04, 0.81, 1.44], [0.3, 0.02, 0.64]],
+            "P2": [[0.5, 1.0, 0.01], [0.09, 0.0625, 0.7], [2.25, 0.16, 0.36]],
+            # link-budget scale path loss (120-150 dB)
+            "P3": [[1e-12, 2.5e-13, 4e-15], [4e-14, 8.1e-13, 1e-15], [3e-13, 2e-14, 6.4e-13]]}[name]
+    return np.array(base)[:K, :K]
 
 
 def E_of(name, Ke):
-    base = {"P1": [[0.36, 0.7], [1.21, 0.2]], "P2": [[0.01, 2.0], [0.49, 0.3]]}[name]
-    return np.array(base)[:, :Ke]
+    base = {"P1": [[0.36, 0.7], [1.21, 0.2], [0.9, 0.05]], "P2": [[0.01, 2.0], [0.49, 0.3], [1.69, 0.11]],
+            "P3": [[3.6e-13, 7e-14], [1.21e-12, 2e-15], [9e-13, 5e-14]]}[name]
+    return np.array(base)[:K, :Ke]
 
 
 def M_of(name, shape):
+    if name == "M3":        # a channel of tiny magnitude (everything in the property is linear in H)
+        return families.generic(13, shape, True, tag=8) * 1e-9
     return families.generic({"M1": 11, "M2": 12}[name], shape, True, tag=8)
 
 
@@ -276,7 +290,7 @@ def check_views(chk, st, hist, cls):
     Nr, Nt = st.layout
     Kt = K + (len(st.NtE) if st.ext else 0)
     ntu = sum(Nt)
-    case = {"class": cls, "history": [list(e) for e in hist]}
+    case = {"class": cls, "K": K, "history": [list(e) for e in hist]}
     big_why = [None]      # explanation of a wrong big_H; its dependants inherit it
 
     def report(view, what, observed, expected):
@@ -386,21 +400,24 @@ def alphabet(ext, tier):
     for lay in ("A", "B"):
         for nte in ntes:
             ev.append(("rand", lay) + ((nte,) if ext else ()))
-            for m in ("M1", "M2"):
+            for m in (("M1", "M2", "M3") if tier == "thorough" else ("M1", "M3")):
                 ev.append(("init", m, lay) + ((nte,) if ext else ()))
-    muts = [("pl", "P1"), ("pl", "P2"), ("pl", None),
+    muts = [("pl", "P1"), ("pl", "P3") if tier != "thorough" else ("pl", "P2"), ("pl", None),
             ("nv", None), ("nv", 0.0), ("nv", 0.1),
             ("pf", "W1"), ("pf", "W2"), ("pf", None)]
     reads = [("rd", "H"), ("rd", "big_H"), ("rd", "Hkl"), ("rd", "Hk")]
     if ext:
         reads += [("rd", "big_H_no_ext_int"), ("rd", "H_no_ext_int"), ("rd", "Hk_without_ext_int")]
+    if tier == "thorough":
+        muts += [("pl", "P3"), ("nv", 1e-13)]
     tx = [("tx", "cd"), ("tx", "ccd")]
     return ev, muts, reads, tx
 
 
-def run_bfs(chk, ext, depth, inits, tier):
+def run_bfs(chk, ext, depth, inits, tier, k=2):
     from pyphysim.channels import multiuser as MU
     from vmc import seams
+    set_K(k)
     cls = "ExtInt" if ext else "plain"
     initialisers, muts, reads, tx = alphabet(ext, tier)
     events = initialisers + muts + reads + tx
@@ -427,7 +444,7 @@ def run_bfs(chk, ext, depth, inits, tier):
         return out
 
     def invariant(hist, st):
-        case = {"class": cls, "history": [list(e) for e in hist]}
+        case = {"class": cls, "K": K, "history": [list(e) for e in hist]}
         if st.error is not None:
             i, ev, e = st.error
             chk.fail((cls, "event:" + ev[0] + (":None" if ev[0] == "pl" and ev[1] is None else "") +
@@ -439,7 +456,7 @@ def run_bfs(chk, ext, depth, inits, tier):
             with chk.guard((cls, "invariant"), case):
                 check_views(chk, st, hist, cls)
         if st.nmut >= 2:
-            chk.nontriv((cls, bfs.digest([list(e) for e in hist])))
+            chk.nontriv((cls, K, bfs.digest([list(e) for e in hist])))
 
     def canon(hist, st):
         if st.error is not None:
@@ -448,7 +465,7 @@ def run_bfs(chk, ext, depth, inits, tier):
         chk.outcome("cache_pattern", (cls,) + tuple(sorted(k for k, v in vars(st.obj).items() if v is None)))
         model = (str(st.layout), st.NtE and tuple(st.NtE), bfs.digest(st.raw), str(st.P is None),
                  bfs.digest(st.P), bfs.digest(st.E), st.nv, bfs.digest(st.W), st.rng.count)
-        return (cls, d, model)
+        return (cls, K, d, model)
 
     b = bfs.BFS(chk, build, enabled, invariant, canon, depth, label=cls)
     b.run(inits)
@@ -464,16 +481,22 @@ def init_hists(ext):
 def main(chk):
     depth = 4 if chk.tier == "thorough" else 3
     chk.assume("post filters are square per-user matrices (the statement itself splits by antenna count)")
-    chk.assume("user count K=2 and the number of external sources stay fixed along a history; layouts change "
-               "(Nr=[1,2],Nt=[2,1] <-> Nr=[2,1],Nt=[1,2])")
+    chk.assume("user count K (2 or 3) and the number of external sources stay fixed along a history; antenna "
+               "layouts change (K=2: Nr=[1,2],Nt=[2,1] <-> Nr=[2,1],Nt=[1,2]; K=3: Nr=[1,2,1],Nt=[2,1,1] <-> "
+               "Nr=[2,1,1],Nt=[1,1,2]); channel magnitudes O(1) and 1e-9, path loss O(1) and 1e-12..1e-15")
     chk.assume("float views compared with |d| <= 1e3*eps*scale")
-    jobs = [(False, h) for h in init_hists(False)] + [(True, h) for h in init_hists(True)]
+    jobs = [(False, 2, h) for h in init_hists(False)] + [(True, 2, h) for h in init_hists(True)]
+    if chk.tier == "thorough":
+        jobs += [(False, 3, h) for h in init_hists(False)] + [(True, 3, h) for h in init_hists(True)]
+    else:
+        # quick: three users, shallower
+        jobs += [(False, 3, init_hists(False)[0]), (True, 3, init_hists(True)[0])]
 
     def worker(i, n, c):
-        for ext, h in shard(iter(jobs), i, n):
-            run_bfs(c, ext, depth, [h], c.tier)
+        for ext, k, h in shard(iter(jobs), i, n):
+            run_bfs(c, ext, depth if (k == 2 or c.tier == "thorough") else depth - 1, [h], c.tier, k)
 
-    run_shards(chk, worker, nshards=len(jobs))
+    run_shards(chk, worker, nshards=min(len(jobs), 16))
     chk.extra["depth"] = depth
     chk.sample({"class": "ExtInt", "history": [["init", "M1", "A", [1]], ["rd", "big_H"], ["pl", "P2"]]})
     chk.require_outcomes("cache_pattern", 6)
@@ -483,6 +506,7 @@ def replay(case, chk):
     from pyphysim.channels import multiuser as MU
     from vmc import seams
     ext = case["class"] == "ExtInt"
+    set_K(int(case.get("K", 2)))
     hist = tuple(tuple(tuple(x) if isinstance(x, list) else x for x in e) for e in case["history"])
     st = State(ext)
     with seams.patched((MU, "randn_c_RS", st.rng)):
